@@ -19,6 +19,7 @@ INSN = {
     "push": (b"\x50", None),
     "pop": (b"\x58", None),
     "ret": (b"\xc3", None),
+    "syscall": (b"\x0f\x05", None),
 }
 
 
@@ -238,6 +239,11 @@ def build_cfg(B, flat):
                 for d2 in flat:
                     if d2["kind"] == "code" and B.blocks[d2["_idx"]] is t and d2.get("func") is not None:
                         call_sites.setdefault(d2["func"], []).append(nxt)
+        elif last[0] == "syscall":
+            # the kernel is entered through a Syscall edge to a proxy; execution continues behind the instruction
+            add_edge(cfg, blk, add_proxy_block(B.m), ET.Syscall)
+            if nxt is not None:
+                add_edge(cfg, blk, nxt, ET.Fallthrough)
         elif last[0] == "ret":
             pass
         else:
@@ -575,6 +581,7 @@ PATCHES = [
     lambda rng, L, X: "pushq %rax\n.cfi_adjust_cfa_offset 8\npopq %rax\n.cfi_adjust_cfa_offset -8",
     lambda rng, L, X: (lambda t: "call %s\ncall %s" % (t, t))(rng.choice(L + X)),
     lambda rng, L, X: (lambda t: "call %s\nnop\ncall %s\nnop" % (t, t))(rng.choice(L)),
+    lambda rng, L, X: ".cfi_remember_state\n.Lretry:\n.cfi_undefined 0\nxorl %eax, %eax\ntestl %eax, %eax\njne .Lretry\n.cfi_restore_state",
     lambda rng, L, X: ".Lspin:\nnop\njne .Lspin",
     lambda rng, L, X: "movl $%d, %%eax\n.Ltail:" % fresh_imm(rng),
     lambda rng, L, X: ".Lspin:\nmovl $%d, %%eax\njne .Lspin\nnop" % fresh_imm(rng),
